@@ -29,7 +29,10 @@ EXTENDS Structure
 CONSTANTS MaxEls,       \* caller-created ids per type
           MaxId,        \* ids per type overall (bounds the definitions explored)
           MaxAsserts,   \* bound on insert/equate calls per behaviour
-          KeepPending   \* TRUE: the delta survives an early return (repaired design)
+          KeepPending,  \* TRUE: the delta survives an early return (repaired design)
+          RuleStages,   \* the stages the rule functions evaluate: Stages without the implicit inheritance stages
+          Members,      \* member relations (declared inside a model): first column is the model object
+          DomRel, CodRel  \* the dom / cod function graphs of the model's morphisms ("" when there is no model)
 
 VARIABLES cnt, rep, tnew, told, new, old, upr, pend, pc, ejd, ref, ch, gens, lastRet, nops
 vars == <<cnt, rep, tnew, told, new, old, upr, pend, pc, ejd, ref, ch, gens, lastRet, nops>>
@@ -42,7 +45,7 @@ GT(t) == [i \in DOMAIN t |-> G(t[i])]
 HasDefs == \E k \in DOMAIN Stages : Stages[k].concl.kind = "def"
 
 \* the evaluator state as an observed structure
-AbsO == [cnt |-> cnt, rep |-> rep, tup |-> [r \in Rels |-> new[r] \cup old[r]]]
+AbsO == [cnt |-> cnt, rep |-> rep, tup |-> [r \in Rels |-> new[r] \cup old[r]]]   \* redefined below for member relations
 Absorb(R, O) == PresUnion([els |-> [T \in Types |-> {G(i) : i \in OIds(O, T)}], eq |-> R.eq, tup |-> R.tup], OfObserved(O))
 
 Init == /\ cnt = [T \in Types |-> 0] /\ rep = [T \in Types |-> <<>>]
@@ -100,22 +103,43 @@ CloseBegin ==
   /\ gens' = [T \in Types |-> Ids(T)]
   /\ UNCHANGED <<cnt, rep, tnew, told, pend, ejd, ref, nops>>
 
+(* ---------------- member relations: own and all copies (recompute_model_indices) ---------------- *)
+\* For a member relation the tables new/old hold the OWN copies.  The ALL copy of an age is
+\* recomputed from the own copy *of the same age*: along every morphism whose dom and cod are
+\* known (in either age) the tuples of the domain object are added at the codomain object,
+\* transitively - exactly what the generated recompute_model_indices does per index.  (This is where
+\* finding KF-C17-1 lives: when a morphism becomes known, the domain's old tuples appear in the old
+\* ALL copy of the codomain and are never presented to the rules as new.)
+Morphisms(nw, ol) == IF DomRel = "" THEN {}
+  ELSE { <<dc[1][2], dc[2][2]>> : dc \in { x \in (nw[DomRel] \cup ol[DomRel]) \X (nw[CodRel] \cup ol[CodRel]) : x[1][1] = x[2][1] } }
+RECURSIVE Inherit(_, _)
+Inherit(S, mors) == LET S2 == S \cup UNION { { [t EXCEPT ![1] = m[2]] : m \in {m \in mors : m[1] = t[1]} } : t \in S }
+                    IN IF S2 = S THEN S ELSE Inherit(S2, mors)
+AllCopy(r, own, nw, ol) == IF r \in Members THEN Inherit(own, Morphisms(nw, ol)) ELSE own
+TabNew(r) == AllCopy(r, new[r], new, old)
+TabOld(r) == AllCopy(r, old[r], new, old)
+
+\* what the public iterators show: the ALL copies
+PubO == [cnt |-> cnt, rep |-> rep, tup |-> [r \in Rels |-> TabNew(r) \cup TabOld(r)]]
+\* C04 at observation points, member relations included: no tuple is yielded twice
+NoDupAtObs == pc \in {"obs0", "obs"} => \A r \in Rels : TabNew(r) \cap TabOld(r) = {}
+
 (* ---------------- one iteration of the loop ---------------- *)
 AgeSet(at, age) ==
   IF at.kind = "set"
   THEN { <<x>> : x \in (CASE age = "new" -> tnew[at.rel] [] age = "old" -> told[at.rel] [] OTHER -> tnew[at.rel] \cup told[at.rel]) }
-  ELSE (CASE age = "new" -> new[at.rel] [] age = "old" -> old[at.rel] [] OTHER -> new[at.rel] \cup old[at.rel])
+  ELSE (CASE age = "new" -> TabNew(at.rel) [] age = "old" -> TabOld(at.rel) [] OTHER -> TabNew(at.rel) \cup TabOld(at.rel))
 PlanAge(i, j) == IF j < i THEN "all" ELSE IF j = i THEN "new" ELSE "old"
 RuleDelta ==
   LET stageDelta(k) ==
-         LET prem == Stages[k].prem IN
-         IF Len(prem) = 0 THEN (IF ejd THEN ConclOf(Stages[k].concl, <<>>) ELSE EmptyDelta)
-         ELSE UnionDelta({ UnionDelta({ ConclOf(Stages[k].concl, a) :
+         LET prem == RuleStages[k].prem IN
+         IF Len(prem) = 0 THEN (IF ejd THEN ConclOf(RuleStages[k].concl, <<>>) ELSE EmptyDelta)
+         ELSE UnionDelta({ UnionDelta({ ConclOf(RuleStages[k].concl, a) :
                 a \in Matches(prem, [j \in DOMAIN prem |-> AgeSet(prem[j], PlanAge(i, j))]) }) : i \in DOMAIN prem })
       fdelta == [tuples |-> {}, defs |-> {},
                  eqs |-> UNION { { <<ResT(f), p[1][Len(p[1])], p[2][Len(p[2])]>> :
                         p \in { q \in new[f] \X (new[f] \cup old[f]) : \A i \in 1..(Len(Arity[f]) - 1) : q[1][i] = q[2][i] } } : f \in Funcs }]
-  IN UnionDelta({stageDelta(k) : k \in DOMAIN Stages} \cup {fdelta})
+  IN UnionDelta({stageDelta(k) : k \in DOMAIN RuleStages} \cup {fdelta})
 
 \* classes of roots after merging along eqs
 ClassesAfter(T, eqs) ==
@@ -159,7 +183,7 @@ ReturnTrue ==
   \* an early return at the first observation does not touch the stored delta; one inside the loop
   \* stores it (repaired design) or loses it
   /\ pend' = IF KeepPending \/ pc = "obs0" THEN pend ELSE EmptyPend
-  /\ ref' = Absorb(ref, AbsO)
+  /\ ref' = Absorb(ref, PubO)
   /\ UNCHANGED <<cnt, rep, tnew, told, new, old, upr, ejd, ch, gens, nops>>
 
 Continue0 == /\ pc = "obs0" /\ pc' = "run"
@@ -207,10 +231,10 @@ Bound == \A T \in Types : cnt[T] <= MaxId
 \* a `false` return is the reference chase of everything asserted (C01 + C02 + C03 + C07 resumption)
 RefinesApi ==
   (pc = "idle" /\ lastRet = "false" /\ ch.done) =>
-     LET O == AbsO P == Phi(ch.nf, O, gens) IN
+     LET O == PubO P == Phi(ch.nf, O, gens) IN
      CompleteBad(ch.nf, O, P) = {} /\ SoundBad(ch.nf, O, P) = {} /\ Unsatisfied(O) = {}
 \* every state the condition can see is sound (C07) and canonical (C04)
-SoundAtObs == (pc \in {"obs0", "obs"} /\ ch.done) => SoundBad(ch.nf, AbsO, Phi(ch.nf, AbsO, gens)) = {}
+SoundAtObs == (pc \in {"obs0", "obs"} /\ ch.done) => SoundBad(ch.nf, PubO, Phi(ch.nf, PubO, gens)) = {}
 RootsOnly == pc \in {"obs0", "obs"} => \A r \in Rels : \A t \in new[r] \cup old[r] : ~StaleBy(rep, r, t)
 TypeSetsExact == pc \in {"obs0", "obs"} => \A T \in Types : tnew[T] \cap told[T] = {} /\ tnew[T] \cup told[T] = {rep[T][i] : i \in Ids(T)}
 Disjoint == \A r \in Rels : new[r] \cap old[r] = {}
